@@ -685,6 +685,17 @@ def check_case(case):
             ck.fails.extend(ck2.fails)
             ck.failed_keys |= ck2.failed_keys
             check_projection(ck, "pg", rp2, "gg", rg)
+        # history clause: the statistics describe the matrix as it is NOW (no stale cached state):
+        # edit one raw call in place (pg) / replace the matrix through the setter (ug) and re-check
+        if n * p > 0:
+            calls3 = pg.mat.tolist()
+            t, j = case.get("seed", 0) % n, (case.get("seed", 0) // 7) % p
+            calls3[0][t][j] ^= 1
+            pg.mat[0, t, j] ^= 1
+            O3 = Oracle(calls3, p)
+            ug.mat = numpy.array(O3.dos, dtype="int8").reshape(n, p)
+            check_object(ck, "pg+edit", pg, O3, True, True, {})
+            check_object(ck, "ug+edit", ug, O3, False, True, {})
     return ck.fails, ck.meh_ulp
 
 
@@ -716,6 +727,7 @@ CAP = 3
 def _drive(ctx, cases, sample_fn=None):
     seen = {}
     meh_ulp = 0
+    rr_denoms = set()
     for case in cases:
         try:
             fails, mu = check_case(case)
@@ -731,6 +743,8 @@ def _drive(ctx, cases, sample_fn=None):
         by_cls = {}
         for clause, cls, msg in fails:
             by_cls.setdefault(cls, (clause, msg))
+        if CLS_RR in by_cls and case.get("ploidy") and case.get("n"):
+            rr_denoms.add(case["ploidy"] * case["n"])
         for cls, (clause, msg) in sorted(by_cls.items()):
             if seen.get(cls, 0) >= CAP:
                 continue
@@ -744,6 +758,8 @@ def _drive(ctx, cases, sample_fn=None):
     if meh_ulp:
         ctx.notes.append("meh(): phased and projected results differed in the last digit(s) in %d comparisons "
                          "((p*(1-p)).sum() vs dot(p,1-p)); compared to rounding, not bitwise" % meh_ulp)
+    if rr_denoms:
+        ctx.notes.append("%s at ploidy*ntaxa in %s%s" % (CLS_RR, sorted(rr_denoms)[:80], " ..." if len(rr_denoms) > 80 else ""))
     ctx.notes.append("failure classes seen: %s" % (dict(seen) or "none"))
 
 
